@@ -28,7 +28,7 @@ func init() {
 			"TotalSize >= 4 x FracSize (retiring the fraction being written is a misconfiguration outside the statement)",
 			"maintenance is timer driven: which hook hit a crash lands on is scheduler dependent, the directory state is judged as found",
 		},
-		Batches: tiered(32, 256),
+		Batches: tiered(64, 1536),
 		Run:     runC15,
 		Timeout: timeoutFor(10*time.Minute, 45*time.Minute),
 	})
